@@ -130,6 +130,7 @@ def parseProg (lines : List String) : Prog :=
           go rest (some fid) P
         else if w0 = "end" then go rest none P
         else if w0 = "maxdepth" then go rest cur { P with maxdepth := nat (ws.getD 1 "6") }
+        else if w0 = "owners" then go rest cur { P with owners := true }
         else if w0 = "maxsteps" then go rest cur { P with maxsteps := nat (ws.getD 1 "1500") }
         else
           let ln := parseLine l
